@@ -4,7 +4,7 @@ import (
 	"verif/harness/spec"
 )
 
-// alphabetProgram is the fixed two-package program the exhaustive type-pair
+// alphabetProgram is the fixed three-package program the exhaustive type-pair
 // enumeration (C03) builds its converters on.
 func alphabetProgram() *spec.Program {
 	p := &spec.Package{Key: "p", Path: "p", Name: "p"}
@@ -20,13 +20,18 @@ func alphabetProgram() *spec.Program {
 		{Name: "SA", U: spec.Struct(spec.F("X", spec.Basic("int")), spec.F("Y", spec.Basic("string")))},
 		{Name: "SC", U: spec.Struct(spec.F("X", spec.Basic("int")))},
 	}
-	return &spec.Program{Module: "example.com/m", Pkgs: []*spec.Package{p, q}}
+	// r.EA: same member names as the int enums, other basic kind - convertible only as an enum
+	r := &spec.Package{Key: "r", Path: "r", Name: "r"}
+	r.Types = []*spec.TypeDecl{
+		{Name: "EA", U: spec.Basic("string"), Consts: []spec.Const{{Name: "One", Value: `"one"`}, {Name: "Two", Value: `"two"`}}},
+	}
+	return &spec.Program{Module: "example.com/m", Pkgs: []*spec.Package{p, q, r}}
 }
 
 func alphabetAtoms(reduced bool) []*spec.T {
 	atoms := []*spec.T{
 		spec.Basic("int"), spec.Basic("int64"), spec.Basic("string"), spec.Basic("bool"),
-		spec.Named("p", "NI"), spec.Named("p", "EA"), spec.Named("q", "EA"),
+		spec.Named("p", "NI"), spec.Named("p", "EA"), spec.Named("q", "EA"), spec.Named("r", "EA"),
 		spec.Named("p", "SA"), spec.Named("q", "SA"), spec.Named("q", "SC"),
 		spec.Iface("any"), spec.Named("", "error"), spec.Func("func()"), spec.Chan("chan", spec.Basic("int")),
 	}
